@@ -175,6 +175,8 @@ def check_case(rec, spec, X, repo):
     inp = {"spec": spec, "X": X, "container": container}
     if exc is not None:
         name = type(exc).__name__
+        if det == "StatThresholdAnomaliser" and p > 1:
+            return False, 0                                 # univariate by its tags: rejecting a wider frame is allowed, a malformed answer is not
         if name == "RuntimeError" and oc.may_be_not_pd(spec):
             return False, 0                                 # documented: sample covariance not positive definite
         if name == "ValueError" and not oc.compatible(spec, p):
@@ -268,8 +270,8 @@ def run(tier="quick", seed=0, repo="/repo"):
     for det in oc.DETECTORS:
         cfgs = configs(det, tier)
         for p in ps:
-            if det == "StatThresholdAnomaliser" and p > 1:
-                continue                                    # documented as univariate only
+            if det == "StatThresholdAnomaliser" and p > 3:
+                continue                                    # documented as univariate: wider frames are judged only where they are accepted (see check_case)
             # every dataset meets about 6 (quick) / 30 (thorough) configurations of the detector for p = 1, a third of that
             # (quick: a quarter) for each p > 1
             base = max(1, len(cfgs) // (6 if quick else 30))
